@@ -33,6 +33,7 @@ class GenericModelFamily(Family):
     module = None          # Coq module with the checker and the single-case evaluator
     model_fn = None        # Gallina function : case -> model result, for replay text
     extra_args = ""
+    extract = None         # extraction unit: Extract/Extract<Name>.v -> model_<name>.ml
     correspondence = ""    # human name of the correspondence family
 
     def classify(self, ctx, case_text, model_text):
@@ -48,7 +49,7 @@ class GenericModelFamily(Family):
         summ = run_harness(ctx, self.binary, self.extra_args, outdir)
         ml = sorted(f for f in summ.get("files", []) if f.endswith(".ml") and "/%s_ml_" % self.prefix in f)
         kv = sorted(f for f in summ.get("files", []) if f.endswith(".v"))
-        bad, skipped = run_ocaml_shards(ml, self.correspondence)
+        bad, skipped = run_ocaml_shards(ml, self.correspondence, self.extract)
         kbad, kskipped, _ = run_kernel_shards(kv, self.correspondence)
         ctx.kernel_lemmas += len(kv)
         ctx.kernel_ok += len(kv) if not kbad else 0
@@ -93,6 +94,7 @@ class GenericModelFamily(Family):
 class C06(GenericModelFamily):
     binary = "h_expr"
     prefix = "C06"
+    extract = "expr"
     module = "Model.ExprCases"
     model_fn = "ecase_model"
     correspondence = "Expression::evaluate vs Model.Expr.evaluate"
@@ -125,3 +127,9 @@ class C06(GenericModelFamily):
 FAMILIES = {
     "C06": C06(),
 }
+
+# families defined in their own files: fam_*.py, each exposing FAMILIES = {"Cnn": instance}
+import importlib
+for _f in sorted(glob.glob(os.path.join(ROOT, "fam_*.py"))):
+    _m = importlib.import_module(os.path.basename(_f)[:-3])
+    FAMILIES.update(getattr(_m, "FAMILIES", {}))
